@@ -55,6 +55,7 @@ type Result struct {
 	Plan      *Plan
 	Hist      []simrt.Rec // append (execution) order
 	Canon     []simrt.Rec // canonical order
+	LastArmNs int64       // virtual time of the latest timer armed by repo code before the census
 	StalledNs int64       // total virtual time the driver let pass while goroutines were parked (slow node)
 	Faults    map[string]int
 	Probes    map[string]int
@@ -322,6 +323,7 @@ func (s *Sim) finish(res *Result) {
 		s.faults["event-overtakes-parked-goroutines"] += int(w.Overlaps)
 	}
 	res.StalledNs = int64(w.StalledFor)
+	res.LastArmNs = w.LastArm.Load()
 	res.MutexWaiters = w.MutexWaiters()
 	n, sample := simrt.Census("github.com/energomonitor/bisquitt/")
 	res.LeakedN, res.Leaked = n, sample
@@ -363,6 +365,7 @@ type clientActor struct {
 	c      *client.Client
 	link   *snLink
 	dialed bool
+	echoN  int
 }
 
 func (s *Sim) newClientActor(i int, cp *ClientPlan) *clientActor {
@@ -425,6 +428,15 @@ func (a *clientActor) handler(filter string) client.MessageHandlerFunc {
 	return func(cl *client.Client, topic string, p *pkts1.Publish) {
 		simrt.Resume("harness/handler:" + name) // (the client runs callbacks in goroutines of their own)
 		a.s.W.Log("handler:"+name, "msg", append([]byte(nil), p.Data...), filter+"|"+topic, int64(p.QOS))
+		if q := a.plan.EchoQoS; q > 0 {
+			// the request/response pattern: the handler (a goroutine of its own) uses the client API and
+			// waits for the gateway's reply
+			a.s.mu.Lock()
+			a.echoN++
+			n := a.echoN
+			a.s.mu.Unlock()
+			a.do(1000+n, ClientOp{Op: "publish", Topic: "cd", QoS: q, Payload: append([]byte("e:"), p.Data...)})
+		}
 	}
 }
 
